@@ -201,7 +201,8 @@ pub mod novasmt_db {
         pub fn new(cas: C) -> (r: Database<C>) ensures forall|z: [u8; 32]| z@ == Seq::new(32, |i: int| 0u8) ==> #[trigger] db_has(r, z) { unimplemented!() }
         #[verifier::external_body]
         pub fn get_tree(&self, root: [u8; 32]) -> (r: Option<novasmt::Tree<C>>)
-            ensures db_has(*self, root) ==> r is Some, r is Some ==> novasmt::root_of(r->Some_0@) == root
+            ensures db_has(*self, root) ==> r is Some, r is Some ==> novasmt::root_of(r->Some_0@) == root,
+                    r is Some && root@ == Seq::new(32, |i: int| 0u8) ==> r->Some_0@ == IMap::new(|k: Seq<u8>| true, |k: Seq<u8>| Seq::<u8>::empty())   // A-SMT: the all-zero root is the empty tree
         { unimplemented!() }
     }
 }
